@@ -146,6 +146,13 @@ impl Desc {
                 )));
             }
 
+            if label_names.contains(label_name) {
+                return Err(Error::Msg(format!(
+                    "label name {} is used both as const and as variable label",
+                    label_name
+                )));
+            }
+
             if !label_names.insert(format!("${}", label_name)) {
                 return Err(Error::Msg(format!(
                     "duplicate variable label name {}",
